@@ -41,6 +41,13 @@ DIRECTED = [
     ([{"pids": [21], "bg": True}, {"pids": [11, 12], "bg": False}],
      [("launch", {"d": 1}), ("launch", {"d": 2}), ("extstop", {"p": 21}), ("extcont", {"p": 21}), ("extstop", {"p": 21}), ("extexit", {"p": 11}),
       ("extexit", {"p": 12}), ("jobs", {}), ("jobs", {}), ("extcont", {"p": 21}), ("jobs", {}), ("extkill", {"p": 21}), ("enter", {})]),
+    # `bg` / `fg` resume the WHOLE pipeline, also one that is only partly stopped (its status is Running)
+    ([{"pids": [11, 12], "bg": True}],
+     [("launch", {"d": 1}), ("extstop", {"p": 12}), ("jobs", {}), ("bg", {"id": 1}), ("jobs", {}), ("extstop", {"p": 11}), ("jobs", {}), ("fg", {"id": 1}),
+      ("ctrlc", {}), ("jobs", {})]),
+    ([{"pids": [11, 12, 13], "bg": False}],
+     [("launch", {"d": 1}), ("ctrlz", {}), ("jobs", {}), ("extcont", {"p": 11}), ("jobs", {}), ("bg", {"id": 1}), ("jobs", {}), ("extkill", {"p": 12}),
+      ("jobs", {}), ("fg", {"id": 1}), ("ctrlc", {}), ("jobs", {})]),
     # an older job ends while a younger one lives on, then a new job starts: it takes the free slot and the living job stays listed
     ([{"pids": [11], "bg": True}, {"pids": [21, 22], "bg": True}, {"pids": [31], "bg": True}],
      [("launch", {"d": 1}), ("launch", {"d": 2}), ("extexit", {"p": 11}), ("jobs", {}), ("jobs", {}), ("launch", {"d": 3}), ("jobs", {}),
